@@ -168,6 +168,9 @@ fn kind_of(d: &Value, want_q: Option<&Value>) -> &'static str {
 fn run_conn(input: &Value) -> Value {
     let qcap = input["q"].as_u64().unwrap_or(1) as usize;
     let nc = input["nc"].as_u64().unwrap_or(1) as u16;
+    let limit = input["limit"].as_u64().unwrap_or(100) as usize;
+    // octets one poll_write of the mock transport accepts (0 = all)
+    let chunk: usize = arg_value("--chunk").and_then(|s| s.parse().ok()).unwrap_or(0);
     let ops = input["ops"].as_array().cloned().unwrap_or_default();
     let before = panics();
     let obs = rt().block_on(async move {
@@ -180,6 +183,7 @@ fn run_conn(input: &Value) -> Value {
         cc.set_response_write_timeout(HALF * 2);
         cc.set_max_queued_responses(qcap);
         cfg.set_connection_config(cc);
+        cfg.set_max_concurrent_connections(limit);
         let srv = Arc::new(StreamServer::with_config(
             listener.clone(),
             VecBufSource,
@@ -202,9 +206,9 @@ fn run_conn(input: &Value) -> Value {
             let id = c * 100 + r;
             match op["op"].as_str().unwrap_or("") {
                 "open" => {
-                    let (io, h) = mock_io(Some(0));
+                    let (io, h) = mock_io_chunked(Some(0), chunk);
                     let addr: SocketAddr = format!("192.0.2.{}:40000", c).parse().unwrap();
-                    listener.connect(io, addr);
+                    listener.connect_with(io, addr, op["what"].as_str() != Some("fail"));
                     ios.insert(c, h);
                 }
                 "send" => {
@@ -270,7 +274,7 @@ fn run_conn(input: &Value) -> Value {
                         if left > 0 {
                             w.push(json!([-2, "partial-frame", left]));
                         }
-                        cs.push(json!({"w": w, "cl": h.is_shutdown()}));
+                        cs.push(json!({"w": w, "cl": h.is_closed()}));
                     }
                 }
             }
